@@ -273,6 +273,26 @@ CHECKS['C19'] = {
     'level_note': 'Trusted: __int128 arithmetic of the compiler. Not covered: 64-bit inputs off the lattices; hosts with other byte order.',
 }
 
+
+def c17_jobs(tier):
+    src = ['src/crc.c', 'src/hash.c', 'src/a.c']
+    jobs = grid_jobs('crc', 'harness/crc.cpp', src, tier, 16)
+    jobs += grid_jobs('crc-asan', 'harness/crc.cpp', src, 'quick', 4, san='asan')
+    return jobs
+
+
+CHECKS['C17'] = {
+    'title': 'CRC and hash routines equal their definitions and compose', 'level': 'exploration', 'engine': 'grid', 'jobs': c17_jobs,
+    'rule': ('bounded-exhaustive enumeration against an independent bit-at-a-time polynomial division in both bit orders: for every 8-bit polynomial (256) and for 16/32/64-bit polynomial sets (published ones, single-bit, all-ones, 0, alternating, repeated-byte) '
+             'x both bit orders: all 256 table entries; the single update step for every (running value, byte) pair (all 2^16 pairs for CRC-8, all 2^24 for CRC-16 on the main polynomials, GF(2)-basis/complement/m*2^e running values for wider CRCs); '
+             'every message of length <=2 over all 256 byte values and of length <=5 (6 thorough) over {00,01,30,7F,80,FF} with 3 initial values (0, all-ones, 0x5A..), each with EVERY split point including the empty pieces; the reflection relation between the two bit orders. '
+             'Hashes: definition val*M+byte, string form vs length-delimited form (strings placed directly before an inaccessible page), null pointer, every split point, on the same message sets with 4 seeds. distinct_nontrivial counts evaluations on non-empty messages / non-zero entries.'),
+    'assumptions': ['polynomials for widths above 8 bits are a stated set, not all 2^N', 'messages longer than 6 bytes are covered only through the composition law (a long message is a concatenation of short pieces)'],
+    'design_ref': '§4.C17', 'technique': 'bounded-exhaustive enumeration of polynomials x running values x bytes x short messages x split points against bit-by-bit polynomial division',
+    'level_text': 'CRC-8 is decided for every polynomial, running value and byte; wider CRCs for the stated polynomial sets; all short messages with every split point and the reflection law tie the table-driven routines to the bitwise definition; the hashes are checked against their folding definition with string/length agreement.',
+    'level_note': 'Trusted: the 15-line bitwise reference. Not covered: polynomials outside the stated sets for widths > 8.',
+}
+
 # ---------------------------------------------------------------- manifest texts
 CHECKS['C01'].update({
     'design_ref': '§4.C01', 'technique': 'explicit-state BFS to a fixpoint over the real src/avl.c (size-bounded, unbounded history length), lock-step reference set, API-replay conformance of every state',
